@@ -1,7 +1,27 @@
-OUTSIDE = ("containers with more than the stated element counts; skip-list levels above the stated cap; "
-           "hash tables growing through insert beyond the stated seed sizes (expansion is exercised directly)")
-ASSUMPTIONS = ["representation invariants inv_*() in harness/C19/*.c characterise the reachable states "
-               "(each is re-established by every operation: inductive step)"]
+OUTSIDE = ("containers with more than the stated element counts (array alloc_cnt > 8, lists > 3+2 nodes, skip list > 3 "
+           "(thorough: sampled 4) nodes, hash table > 3 (thorough 4) entries in 16 slots, buffers > 32 (thorough 64) bytes); "
+           "skip-list with more than 4 list levels (needs >= 16 elements) and growth of the level array; hash tables growing "
+           "through insert (needs 13 entries; ares_htable_expand is exercised directly); ares_buf_split / hexdump / parse_* / "
+           "replace / append_num_* / load_file; append-family operations on allocated buffers are covered on slices (cursor "
+           "fixed + data_len symbolic, or grid points) - the fully symbolic state only in the thorough tier where it closes; "
+           "ares_buf_set_position below an active tag (no library caller does it)")
+ASSUMPTIONS = ["representation invariants (inv()/check_*() in harness/C19/*.c) characterise the reachable states: each is "
+               "re-established by every operation (inductive step) and holds for the state made by the real constructor "
+               "(anchor jobs)",
+               "ares_llist / ares_slist / ares_htable have no value-dependent pointer structure beyond key order / hash "
+               "slot, and CBMC does not close on symbolic pointer structures (measured), so their SHAPES (node counts, "
+               "skip-list level vectors, collision patterns incl. the post-doubling hash bit, in-slot orders, operand node) "
+               "are enumerated exhaustively as concrete jobs / concrete loops inside the harness; keys, values, destructor "
+               "choice, coin-flip state stay symbolic",
+               "hash function stub: arbitrary function of the key given by a table indexed by key identity (generic table: "
+               "harness callback; wrappers: ares_htable_hash_FNV1a[_casecmp] replaced at the TU boundary)",
+               "ares_rand_bytes stub: arbitrary bytes (level-choice kernel) / the concrete flip pattern selecting the "
+               "enumerated level (insert jobs)",
+               "typed allocation under CBMC for list/table/skip-list objects (malloc(sizeof(T)) instead of the byte-array "
+               "objects of valloc.c), same ledger and failure injection; leak freedom is asserted on the allocator ledger",
+               "memchr/memmem: loop models in harness/C19/c19_libc.c (CBMC has none)",
+               "ares_buf: tag is unset or <= offset (set_position below an active tag is excluded as caller misuse); "
+               "append lengths <= 36; dup/strdup lengths <= 7 (allocation sizes are case-split)"]
 
 LIB = ["src/lib/ares_library_init.c", "src/lib/util/ares_math.c"]
 ARRAY_OPS = ["insert_at", "insertdata_at", "insertdata_first", "insertdata_last", "insert_first", "insert_last",
@@ -27,8 +47,7 @@ def llist_jobs(tier):
     return J
 
 
-SLIST_N3_QUICK = [(1, 1, 1), (4, 4, 4), (1, 2, 3), (3, 2, 1), (2, 4, 1), (1, 4, 1), (4, 1, 4), (2, 2, 3), (3, 1, 2),
-                  (1, 3, 3), (4, 2, 2), (2, 1, 4)]
+SLIST_N3_QUICK = [(1, 1, 1), (4, 4, 4), (1, 2, 3), (3, 2, 1), (2, 4, 1), (1, 4, 1), (4, 1, 4), (2, 2, 3)]
 
 
 def slist_vectors(tier, seed):
@@ -61,7 +80,7 @@ def slist_jobs(tier, seed):
                           defines=base + ["-DGRP=0", "-DOP=0", "-DNEWLV=%d" % lvl],
                           witnesses=["end"] + (["multi-level insert"] if lvl > 1 else []),
                           bound=shape + "; ONE insert of any key 0..9 whose coin flips give level %d" % lvl))
-        for lvl in ((2,) if tier == "quick" else (1, 2, 3, 4)):
+        for lvl in ((2,) if n <= 2 else ()):  # allocation-failure scenarios are C14's; n >= 3 needs > 6 GB
             J.append(dict(common, name="slist_insert_oom_%s_new%d" % (tag, lvl),
                           defines=base + ["-DGRP=0", "-DOP=7", "-DNEWLV=%d" % lvl],
                           bound=shape + "; ONE insert (level %d) in which the 1st, 2nd or 3rd allocation fails" % lvl))
@@ -119,10 +138,13 @@ def htable_jobs(tier):
             if op == 1 and e == 0:
                 continue
             parts = withnew if op in (0, 3, 7) else [r + [(max(r) + 1 if r else 0)] for r in stored]
+            if tier == "quick" and e >= 3 and op in (3, 7):
+                # quick tier: the absent/new key either shares key 0's slot or has a slot of its own
+                parts = [r + [0] for r in stored] + [r + [max(r) + 1] for r in stored]
             for part in parts:
                 ords = [None]
-                if op in (4, 8) and e >= 3:
-                    ords = htable_ords(part, e)
+                if op in (1, 3, 4, 8) and e >= 3:
+                    ords = htable_ords(part, e)  # in-harness case loops grow super-linearly: one order mask per job
                 for o in ords:
                     tag = "e%d_p%s%s" % (e, "".join(str(b) for b in part), "" if o is None else "_o%d" % o)
                     wit = ["end"]
@@ -145,11 +167,161 @@ def htable_jobs(tier):
     return J
 
 
+BUF_REAL = LIB + ["src/lib/str/ares_str.c"]
+BUF_SUP = ["vp_rt.c", "valloc.c", "memloops.c", "c19_libc.c"]
+# op number -> (name, extra witnesses when the buffer holds data)
+BUF_OPS = {
+    1: ("append_byte", []), 2: ("append_be16", []), 3: ("append_be32", []),
+    6: ("set_length", ["set_length ok"]), 7: ("set_position", []), 8: ("tag", []), 9: ("tag_rollback", ["rolled back"]),
+    10: ("tag_clear", []), 11: ("tag_fetch", []), 12: ("tag_fetch_bytes", ["fetched"]),
+    13: ("tag_fetch_string", ["fetched"]), 14: ("tag_fetch_strdup", ["fetched"]), 15: ("tag_fetch_constbuf", ["fetched"]),
+    16: ("consume", []), 17: ("fetch_be16", []), 18: ("fetch_be32", []), 19: ("fetch_bytes", []),
+    20: ("fetch_bytes_dup", []), 21: ("fetch_str_dup", []), 22: ("fetch_bytes_into_buf", []), 23: ("peek_len_begins", []),
+    24: ("consume_whitespace", ["stopped inside"]), 25: ("consume_nonwhitespace", ["stopped inside"]),
+    26: ("consume_line", ["stopped inside"]), 30: ("reclaim", ["reclaimed up to the tag"]), 31: ("finish_bin", []),
+    32: ("finish_str", []), 33: ("destroy", []), 34: ("rejects", []), 35: ("create_const", []),
+}
+BUF_CURSORS_Q = [("c0", ["-DOFF=0", "-DTAG=SIZE_MAX"]), ("c5t2", ["-DOFF=5", "-DTAG=2"]),
+                 ("c20", ["-DOFF=20", "-DTAG=SIZE_MAX"]), ("cend", ["-DOFF_END", "-DTAG=SIZE_MAX"])]
+BUF_CURSORS_T = BUF_CURSORS_Q + [("c0t0", ["-DOFF=0", "-DTAG=0"]), ("c5", ["-DOFF=5", "-DTAG=SIZE_MAX"]),
+                                 ("c5t0", ["-DOFF=5", "-DTAG=0"]), ("c5t5", ["-DOFF=5", "-DTAG=5"]),
+                                 ("c20t7", ["-DOFF=20", "-DTAG=7"]), ("cendt0", ["-DOFF_END", "-DTAG=0"])]
+
+
+def buf_shape_text(al, cl):
+    if al == 0:
+        return "freshly created ares_buf (nothing allocated, tag unset or 0)"
+    if al < 0:
+        return ("const ares_buf over exactly %d symbolic bytes, any offset 0..%d, tag unset or any value <= offset" % (cl, cl))
+    return ("allocated ares_buf: alloc_buf_len=%d (exact-size storage), symbolic contents, any data_len 0..%d, any offset <= "
+            "data_len, tag unset or any value <= offset" % (al, al - 1))
+
+
+def buf_job(name, al, cl, defs, sizes, what, wit=None, backend=None, extra_bound=""):
+    big = max(al, cl if al < 0 else 0, 36)
+    d = dict(name=name, harness="buf_step.c",
+             defines=["-DAL=%d" % al, "-DCL=%d" % cl] + defs +
+                     ["-DVP_SIZES=%s" % ",".join(str(x) for x in sorted(set(sizes)))],
+             real=BUF_REAL, support=BUF_SUP, unwind=big + 10, unwindset=["vp_realloc.0:%d" % (max(al, 64) + 2)],
+             witnesses=["end"] + (wit or []),
+             bound=buf_shape_text(al, cl) + extra_bound + "; ONE " + what)
+    if backend:
+        d["backend"] = backend
+    return d
+
+
+def buf_jobs(tier):
+    J = []
+    shapes = [(0, 12), (32, 12), (-1, 12)] + ([(64, 12), (-1, 40)] if tier != "quick" else [])
+    for al, cl in shapes:
+        tag = "fresh" if al == 0 else ("const%d" % cl if al < 0 else "al%d" % al)
+        base = [48, 32, 64, 128] + ([256] if al == 64 else []) + ([cl] if al < 0 else [])
+        holds_data = al != 0
+        for op, (nm, wit) in sorted(BUF_OPS.items()):
+            if op in (1, 2, 3) and al > 0:
+                continue  # append family on allocated buffers: sliced below
+            if al == 0 and op in (14, 20, 21, 22):
+                continue  # nothing to fetch from a fresh buffer: refusal paths are covered by the other shapes
+            w = list(wit) if holds_data else [x for x in wit if x in ("rolled back",)]
+            if al < 0:
+                w = [x for x in w if x not in ("set_length ok", "reclaimed up to the tag")]
+            sizes = base + (list(range(1, 9)) if op in (14, 20, 21) else [])
+            J.append(buf_job("buf_%s_%s" % (nm, tag), al, cl, ["-DOP=%d" % op], sizes, nm, w))
+        # scanners with a symbolic character set: set length concrete, SMT back end (SAT: no verdict in 100 s)
+        big_sets = () if tier == "quick" else (3,)
+        for op, nm, lens in ((27, "consume_until_charset", (0, 1, 2) + big_sets), (28, "consume_charset", (0, 1, 2) + big_sets),
+                             (29, "consume_until_seq", (0, 1, 2))):
+            for n in lens:
+                J.append(buf_job("buf_%s%d_%s" % (nm, n, tag), al, cl, ["-DOP=%d" % op, "-DCSLEN=%d" % n], base,
+                                 "%s with any %d-byte set/sequence, require flag either way" % (nm, n),
+                                 ["stopped inside"] if (holds_data and n > 0 and op != 29) else [],
+                                 backend="z3" if (holds_data and n > 0) else None))
+        # append family
+        if al <= 0:
+            for op, nm, ks in ((0, "append", (None,)), (4, "append_start_finish", (None,)), (5, "ensure_space", (None,))):
+                J.append(buf_job("buf_%s_%s" % (nm, tag), al, cl, ["-DOP=%d" % op], base,
+                                 "%s of any length 0..36" % nm))
+            continue
+        curs = BUF_CURSORS_Q if tier == "quick" else BUF_CURSORS_T
+        fam = [(0, "append", 5), (0, "append", 36), (1, "append_byte", None), (4, "append_start_finish", 3),
+               (5, "ensure_space", 36)]
+        for cn, cd in curs:
+            for op, nm, k in fam:
+                if tier == "quick" and (op, k) in ((0, 36), (4, 3)) and cn not in ("c5t2", "cend"):
+                    continue
+                J.append(buf_job("buf_%s%s_%s_%s" % (nm, "" if k is None else str(k), tag, cn), al, cl,
+                                 ["-DOP=%d" % op] + ([] if k is None else ["-DK=%d" % k]) + cd, base,
+                                 nm + ("" if k is None else " of %d bytes" % k) +
+                                 " (may reclaim and/or double the allocation)",
+                                 extra_bound=" - slice: cursor fixed at %s, data_len symbolic" % " ".join(cd)))
+        # be16/be32 = two/four appends: close only on a concrete grid of data_len x cursor
+        for op, nm, dls in ((2, "append_be16", (0, al - 3, al - 2, al - 1)), (3, "append_be32", (0, al - 5, al - 4, al - 3, al - 2, al - 1))):
+            for dl in dls:
+                for cn, cd, need in (("c0", ["-DOFF=0", "-DTAG=SIZE_MAX"], 0), ("cend", ["-DOFF_END", "-DTAG=SIZE_MAX"], 0),
+                                     ("c3t1", ["-DOFF=3", "-DTAG=1"], 3)):
+                    if dl < need:
+                        continue
+                    J.append(buf_job("buf_%s_%s_d%d_%s" % (nm, tag, dl, cn), al, cl,
+                                     ["-DOP=%d" % op, "-DDLO=%d" % dl, "-DDHI=%d" % dl] + cd, base, nm,
+                                     extra_bound=" - grid point: data_len=%d, cursor %s" % (dl, " ".join(cd))))
+        if tier != "quick" and al == 32:
+            # boundary data_len with fully symbolic cursor/tag, and the fully symbolic state where it closes
+            for op, nm, k in ((0, "append", 5), (1, "append_byte", None), (5, "ensure_space", 36)):
+                J.append(buf_job("buf_%s%s_%s_full" % (nm, "" if k is None else str(k), tag), al, cl,
+                                 ["-DOP=%d" % op] + ([] if k is None else ["-DK=%d" % k]), base,
+                                 nm + " from the fully symbolic state"))
+            for dl in (al - 2, al - 1):
+                for op, nm, k in ((0, "append", 5), (2, "append_be16", None)):
+                    J.append(buf_job("buf_%s%s_%s_d%d_symcur" % (nm, "" if k is None else str(k), tag, dl), al, cl,
+                                     ["-DOP=%d" % op, "-DDLO=%d" % dl, "-DDHI=%d" % dl] + ([] if k is None else ["-DK=%d" % k]),
+                                     base, nm, extra_bound=" - slice: data_len=%d, cursor and tag symbolic" % dl))
+    return J
+
+
+WRAPPERS = [("szvp", 12), ("asvp", 16), ("vpvp", 12), ("strvp", 14), ("dict", 26), ("vpstr", 14)]
+
+
+def wrap_jobs(tier):
+    J = []
+    parts = [(0, 1, 2), (0, 0, 0)] if tier == "quick" else [(0, 1, 2), (0, 0, 0), (0, 0, 1), (0, 1, 0), (0, 1, 1)]
+    for w, (nm, nfail) in enumerate(WRAPPERS):
+        for part in parts:
+            lo = 0
+            while lo <= nfail:
+                if tier == "quick" and lo > 0:
+                    break  # single-allocation-failure slices (C14 territory) only in the thorough tier
+                hi = min(lo + 5, nfail)
+                J.append(dict(
+                    name="wrap_%s_p%s_f%d_%d" % (nm, "".join(str(x) for x in part), lo, hi), harness="htable_wrap.c",
+                    defines=["-DW=%d" % w, "-DPART=%s" % ",".join(str(x) for x in part), "-DFLO=%d" % lo, "-DFHI=%d" % hi,
+                             "-DNFAIL=%d" % nfail, "-DVP_SIZES=1,2,3,4,5,6,7,8,16,24,32"],
+                    real=BUF_REAL, support=BUF_SUP, unwind=20, kf_group="wrap_%s" % nm,
+                    witnesses=["end"] + (["unfailed run"] if lo == 0 else []),
+                    bound="ares_htable_%s on the real table+list, hash = arbitrary function of the key with collision "
+                          "pattern %s of the 3 keys; scenario create/insert/insert/replace/get/get_direct/num_keys/keys/"
+                          "claim/remove/destroy with %s" %
+                          (nm, list(part), "no allocation failure and " * (lo == 0) +
+                           "the single failing allocation at every position %d..%d" % (max(lo, 1), hi))))
+                lo = hi + 1
+    return J
+
+
 def jobs(tier, seed):
     J = []
-    J += llist_jobs(tier)
-    J += htable_jobs(tier)
-    J += slist_jobs(tier, seed)
+    new = llist_jobs(tier) + wrap_jobs(tier) + buf_jobs(tier) + htable_jobs(tier) + slist_jobs(tier, seed)
+    # longest first, so the pool does not end on a long tail
+    def cost(j):
+        n = j["name"]
+        if n.startswith("wrap_dict") or n.startswith("buf_append36") or n.startswith("buf_append_start_finish3"):
+            return 0
+        if n.startswith("wrap_") or n.startswith("htable_expand_e3") or "_full" in n or "_symcur" in n:
+            return 1
+        if n.startswith("buf_consume_") or n.startswith("buf_fetch") or n.startswith("buf_finish"):
+            return 2
+        if n.startswith("array_insert") and "_ms1_" not in n and "_ac0" not in n:
+            return 1
+        return 3
+    J += new
     for ms in ((1, 2) if tier == "quick" else (1, 2, 4)):
         for ac in (0, 4, 8):
             for op, opname in enumerate(ARRAY_OPS):
@@ -162,4 +334,7 @@ def jobs(tier, seed):
                               bound="arbitrary valid ares_array state: alloc_cnt=%d, any offset/cnt with "
                                     "offset+cnt<=alloc_cnt, symbolic contents, member_size=%d; ONE %s with any "
                                     "index 0..9" % (ac, ms, opname)))
-    return J
+    for j in J:
+        if not j["name"].startswith("array_"):
+            j.setdefault("mem_gb", 6)
+    return sorted(J, key=cost)
